@@ -1,10 +1,7 @@
 import RemocModel.Link.CloseInv
 import RemocModel.Link.Relay
-<<<<<<< HEAD
 import RemocModel.Link.LrClass
-=======
 import RemocModel.Link.ForwardClose2
->>>>>>> agent-forward
 import RemocModel.Props.C01
 import RemocModel.Base.CloseProv
 import RemocModel.Base.CloseList
@@ -187,7 +184,6 @@ def relayRun : List RLabel :=
 example : (rrun relayCfg relayCfg (rinit relayCfg relayCfg) relayRun).b.delivered = [[1, 2]] ∧
     (rrun relayCfg relayCfg (rinit relayCfg relayCfg) relayRun).a.completed = [[1, 2]] := by decide
 
-<<<<<<< HEAD
 /-! ### `rch::lr` / `rch::base`: a typed channel directly on one port (no local queue)
 
 `lr::Sender::send` = `base::Sender::send` = serialize + `chmux::Sender::send`; a value is accepted exactly
@@ -260,7 +256,6 @@ theorem lr_classification_exact (c : Cfg) (st : State) (h : Reachable c st) :
     | some g =>
       rw [hs] at hv
       cases g <;> cases hrc : st.r.closed <;> cases hrd : st.r.dropped <;> simp [hrc, hrd, lrReason] at hv ⊢
-=======
 /-! ### across `chmux::forward` at chunk granularity (`RemocModel/Link/Forward.lean`)
 
 `FReachable v ca cb f` quantifies over every schedule of origin, upstream link, forwarding loop, downstream
@@ -516,7 +511,6 @@ example :
     f.a.s.closed = none ∧ f.a.r.closed = false ∧
     (fstep .asCoded fwdA fwdWedgeB f .fail).isNone ∧ (fstep .asCoded fwdA fwdWedgeB f (.down .request)).isNone ∧
     (fstep .asCoded fwdA fwdWedgeB f .emit).isNone ∧ (fstep .asCoded fwdA fwdWedgeB f .closedEvt).isNone := by decide
->>>>>>> agent-forward
 
 end Remoc.Link
 
